@@ -138,3 +138,19 @@ Definition stored_of (qs : list (string * qid)) : string -> qid :=
 Definition mount_file (g i : nat) (f : file) : file := mkFile (f_base f) (f_chain f ++ [(g, i)]).
 Definition mount_dir (g i : nat) (d : dir) : dir := mkDir (d_ents d) (d_stored d) (d_wrap d ++ [(g, i)]).
 Definition root_qid : qid := mkQid p9_TypeDir 0 0.
+
+(** A mount's own identity changes after the file system was built (the host
+    directory behind a localfs mount is replaced, a file bumps its QID version):
+    the File stored under [n] now reports [q] from GetAttr.  composefs asks the
+    mount at every Readdir / Walk, so the root directory after the change is
+    simply the directory with the new base. *)
+Definition set_base (n : string) (q : qid) (l : list (string * file)) : list (string * file) :=
+  map (fun nf => if String.eqb n (fst nf) then (fst nf, mkFile q (f_chain (snd nf))) else nf) l.
+Definition dir_set_base (n : string) (q : qid) (d : dir) : dir :=
+  mkDir (set_base n q (d_ents d)) (d_stored d) (d_wrap d).
+
+(** the variant that remembers, per mount, the QID its GetAttr gave when it was mounted
+    (as staticfs does for its immutable files): Readdir answers from that table *)
+Definition dir_cache_at_mount (s : mstate) (d : dir) : dir * mstate :=
+  let '(qs, s1) := getattr_all s (d_ents d) in
+  (mkDir (d_ents d) (Some (fun n => match assoc n qs with Some x => x | None => zero_qid end)) (d_wrap d), s1).
